@@ -320,13 +320,21 @@ impl FatVolume {
                 let fat_entry =
                     LittleEndian::read_u16(&block[this_fat_ent_offset..=this_fat_ent_offset + 1]);
                 match fat_entry {
+                    0x0000 => {
+                        // Jumped to free space
+                        Err(Error::UnterminatedFatChain)
+                    }
                     0xFFF7 => {
                         // Bad cluster
                         Err(Error::BadCluster)
                     }
-                    0xFFF8..=0xFFFF => {
+                    0x0001 | 0xFFF8..=0xFFFF => {
                         // There is no next cluster
                         Err(Error::EndOfFile)
+                    }
+                    f if u32::from(f) - RESERVED_ENTRIES >= self.cluster_count => {
+                        // Not a cluster of this volume
+                        Err(Error::BadCluster)
                     }
                     f => {
                         // Seems legit
@@ -355,6 +363,10 @@ impl FatVolume {
                     0x0000_0001 | 0x0FFF_FFF8..=0x0FFF_FFFF => {
                         // There is no next cluster
                         Err(Error::EndOfFile)
+                    }
+                    f if f - RESERVED_ENTRIES >= self.cluster_count => {
+                        // Not a cluster of this volume
+                        Err(Error::BadCluster)
                     }
                     f => {
                         // Seems legit
